@@ -129,10 +129,36 @@ class Tracer:
 
     def call(self, slv, X, y, w_init, Xw_init):
         self._call = dict(w_init=w_init, Xw_init=Xw_init)
+        # solvers whose update of a null column is an exact proximal minimisation (one epoch zeroes it);
+        # FISTA / LBFGS only shrink it step by step
+        self.zc_strict = int(type(slv).__name__ not in ("FISTA", "LBFGS"))
+
+    def _zero_cols_zero(self, wc):
+        """1 iff every penalised coefficient (group, row) of an all-zero column (group) is exactly zero (C19)"""
+        zc = 1
+        try:
+            X = self.prob["X"]
+            wv, _b = PB.split(self.prob, wc)
+            zero_cols = ~np.any(X != 0, axis=0)
+            if self.prob["penalty"]["kind"] in OP.GROUP_BLOCK:
+                grs = OP.groups(self.prob["penalty"])
+                wts = self.prob["penalty"].get("weights", self.prob["penalty"].get("weights_groups"))
+                for g, idx in enumerate(grs):
+                    if np.all(zero_cols[idx]) and wts[g] != 0 and np.any(wv[idx] != 0):
+                        zc = 0
+            else:
+                pen_mask = OP.is_penalized(self.prob["penalty"], X.shape[1])
+                rows = wv.reshape(len(wv), -1)
+                if np.any((rows != 0).any(axis=1) & zero_cols & pen_mask):
+                    zc = 0
+        except Exception:  # noqa: BLE001
+            zc = 1
+        return zc
 
     def _on_init(self, f):
         st, w = self._state(f["w"], f.get("Xw"), f.get("grad"))
         self.first_w = w
+        self.zc_start = self._zero_cols_zero(w)
         self.events.append(dict(e="init", dig=st["dig"], obj=st["obj"], cons=st["cons"],
                                 feas=st["feas"], fin=st["fin"]))
 
@@ -211,27 +237,10 @@ class Tracer:
         except Exception:
             critf = float("nan")
         fin = int(st["fin"] and bool(np.all(np.isfinite(objs))) and not np.isnan(critf))
-        # exactly zero coefficients on penalised all-zero columns (C19)
-        zc = 1
-        try:
-            X = self.prob["X"]
-            wv, _b = PB.split(self.prob, wc)
-            zero_cols = ~np.any(X != 0, axis=0)
-            if self.prob["penalty"]["kind"] in OP.GROUP_BLOCK:
-                grs = OP.groups(self.prob["penalty"])
-                wts = self.prob["penalty"].get("weights", self.prob["penalty"].get("weights_groups"))
-                for g, idx in enumerate(grs):
-                    if np.all(zero_cols[idx]) and wts[g] != 0 and np.any(wv[idx] != 0):
-                        zc = 0
-            else:
-                pen_mask = OP.is_penalized(self.prob["penalty"], X.shape[1])
-                rows = wv.reshape(len(wv), -1)
-                if np.any((rows != 0).any(axis=1) & zero_cols & pen_mask):
-                    zc = 0
-        except Exception:  # noqa: BLE001
-            zc = 1
+        zc = self._zero_cols_zero(wc)
         self.events.append(dict(
-            e="return", crit=critf, tol=self.tol, nobj=int(len(objs)), zc=zc,
+            e="return", crit=critf, tol=self.tol, nobj=int(len(objs)), zc=zc, zc0=getattr(self, "zc_start", 1),
+            zcs=getattr(self, "zc_strict", 0),
             vfeat=self._vparts[0], vint=self._vparts[1],
             objs=[float(v) for v in objs[:60]], dig=st["dig"], viol=viol,
             vb=PB.vbound(self.tol, self.scale), viol_lo=vlo, viol_hi=vhi, obj=st["obj"],
